@@ -253,3 +253,56 @@ PROPS["C06"] = {
                   "net/http itself discards are only required to be closed",
     "assumptions": ["transports return a non-empty Status text", "one worker, so results arrive in sequence order"],
 }
+
+_ATTACK_SYNC_UNITS = [
+    {"name": "bubble", "pkg": "libsync", "go": "go1.26.8", "run": "^TestC02"},
+]
+
+PROPS["C02"] = {
+    "title": "Every started hit yields exactly one result and the attack ends cleanly",
+    "units": [{"name": "bubble", "pkg": "libsync", "go": "go1.26.8", "run": "^TestC02(Random|Exhaustive)"},
+              {"name": "stoprace", "pkg": "lib", "run": "^TestC02StopRace", "shards_quick": 2, "shards_thorough": 8},
+              {"name": "pump", "pkg": "main", "run": "^TestC02", "shards_quick": 1, "shards_thorough": 4, "disabled": True}],
+    "rule": "Histories over the alphabet {tick, pacer-stop, complete(oldest/newest/any), consume, Stop by 1..8 callers, "
+            "fail-next-target} are executed against the real Attacker inside a testing/synctest bubble with a gated "
+            "pacer, recording targeter, blocking fake transport and the test as consumer; synctest.Wait() after every "
+            "action makes the observed state final. Exhaustive: every sequence of enabled actions up to length 4 "
+            "(thorough: 6, and 7 for max-workers <= 2) for (workers, max-workers) in {0..3} x {1..3}; random: rapid "
+            "scripts of up to 200 actions with max-workers up to 64. Non-trivial = a tick while all workers were busy, or "
+            "a stop cause while >= 1 hit was in flight; distinct = (config, executed action string).",
+    "explanation": "Oracle: sequential model of the attack (hits started, in transport, finished-unconsumed, pending "
+                   "tick, stop causes). Invariants after every step: exactly the started sequence numbers reach the "
+                   "transport once, every delivered result has a started, not yet delivered seq and matches the exchange "
+                   "it echoes, nothing starts after pacer-stop, a failed targeter still delivers one error result and "
+                   "stops the attack; end state: channel closed exactly when all started hits delivered, seqs 0..n-1, "
+                   "closed again on re-read, no goroutine left (bubble exit), at most one Stop call answers true and "
+                   "exactly one if the first call preceded every internal stop. The C03 cap and on-demand rules run in "
+                   "the same histories.",
+    "technique": "stateful model-based testing with an owned schedule (rapid state scripts + bounded-exhaustive enumeration inside testing/synctest bubbles)",
+    "level_text": "bounded-exhaustive enumeration of event sequences at quiescent points plus long random histories, "
+                  "against a sequential reference model; between two quiescent points the real goroutines interleave "
+                  "freely (sampled, not enumerated)",
+    "level_note": "needs go1.26.8 (testing/synctest); the fake transport and pacer are harness code; the CLI result "
+                  "pump (processAttack) is checked separately by the main-package unit",
+    "assumptions": ["select between a ready tick send and a closed stop channel may go either way (both are accepted)"],
+}
+
+PROPS["C03"] = {
+    "title": "Requests in flight never exceed max-workers and free capacity is used",
+    "units": [{"name": "bubble", "pkg": "libsync", "go": "go1.26.8", "run": "^TestC02(Random|Exhaustive)", "env": {"VERIF_AS": "C03"}}],
+    "rule": "Same bubble histories as C02 (exhaustive up to length 4/6/7 over workers 0..3 x max-workers 1..3, random "
+            "up to 200 actions with max-workers up to 64, any initial worker count incl. 0 and > max). Non-trivial = a "
+            "tick while all max workers were busy (pending hit) or a stop cause with hits in flight; distinct = (config, "
+            "executed action string).",
+    "explanation": "Oracle (C03 clauses of the shared model): after every step started - consumed <= max-workers; a tick "
+                   "granted while fewer than max are busy starts exactly one hit in that very step (targeter call + "
+                   "transport entry observed after synctest.Wait, whatever the initial worker count); a tick granted "
+                   "while all are busy starts nothing and the pacer is not consulted again; the next consumption starts "
+                   "exactly that one hit in that step.",
+    "technique": "stateful model-based testing with an owned schedule (rapid + bounded-exhaustive enumeration inside testing/synctest bubbles)",
+    "level_text": "bounded-exhaustive enumeration of event sequences at quiescent points plus long random histories "
+                  "against a sequential reference model",
+    "level_note": "shares its harness and runs with C02; quiescence (synctest.Wait) is what makes 'did not start' and "
+                  "'started without waiting' decidable without timeouts",
+    "assumptions": [],
+}
